@@ -532,12 +532,12 @@ func genPageProbe(r *rand.Rand, d *dataset, i int) *querySpec {
 // one group - the cells must agree (judged cell against cell, like every grouped-limit query).
 func genGroupedPageProbe(r *rand.Rand, d *dataset, i int) *querySpec {
 	q := &querySpec{Mst: d.U.Msts[i%len(d.U.Msts)], Meta: "grouped-limit"}
-	switch i % 3 {
-	case 0:
+	// only groupings that keep every series apart: GROUP BY host alone merges series that share
+	// timestamps, and which of two rows with one timestamp comes first is not defined - a
+	// LIMIT/OFFSET window cutting between them may legitimately differ from cell to cell
+	if i%2 == 0 {
 		q.GroupStar = true
-	case 1:
-		q.GroupTags = []string{"host"}
-	default:
+	} else {
 		q.GroupTags = []string{"host", "region"}
 	}
 	q.Cols = []string{"fi", "ff", "fs"}[:1+r.IntN(3)]
@@ -553,7 +553,7 @@ func genGroupedPageProbe(r *rand.Rand, d *dataset, i int) *querySpec {
 	if rows > 1 {
 		q.Offset = r.IntN(rows)
 	}
-	if i%2 == 0 {
+	if (i/2)%2 == 0 {
 		// a narrow time range: few rows per group, so many groups fit into one chunk
 		t := d.Times[r.IntN(len(d.Times))]
 		q.Lo = &bound{t, true}
